@@ -11,7 +11,8 @@ Observation (black box, DESIGN 2.5): the policy runs against a delegating *spy e
     spy knows, per row, the action sequence that was *really executed* to reach that row's state = the prefix of the
     kept beam in that slot,
   * records every get_reward call (all W*B beams inside _select_best_beam, then the returned rows).
-Nothing of rl4co is patched.
+Nothing of rl4co is patched.  (The score-geometry classes of the evidence are measured with a forward hook on the policy's
+decoder that is registered only while the HARNESS reference beam search runs, never during the run under test.)
 
 Oracles
  1 feasible    every beam (all W*B, also with select_best) is complete and feasible for the independent problem
@@ -30,6 +31,12 @@ Oracles
                and the spied rewards), the returned actions are one of the maximal beams, the returned reward is the
                independent objective of the RETURNED actions, and the returned log-probs are that beam's.
 
+Coarse heat-map policies (zoo key nar_coarse, vf/c13_heat.py): rl4co's NonAutoregressivePolicy / NonAutoregressiveDecoder
+on a harness stub encoder whose heat-map lives on a coarse log grid (-g * integer level, g >= 17 nats), so that accumulated
+beam scores routinely differ by tens of nats, whole steps are numerically deterministic (every row's best move has float32
+log-prob exactly 0.0 although alternatives exist) and exact ties occur.  Same oracles; what they add is oracle 4 on steps
+where the W best expansions differ from "every beam keeps its best child" although every row looks forced.
+
 mTSP (cost_type minmax = env default, and sum) is part of the domain: with minmax the env reads the reward from the
 ROLLOUT STATE (td["reward"] accumulated by _step), so the state handed back next to the actions must be the state of the
 beam the actions belong to - oracles 1 and 5 judge the sequences with vf.oracles.routing.judge_mtsp.
@@ -47,8 +54,9 @@ import hypothesis.strategies as st
 import torch
 
 from ..envs import SPECS, py_instance
+from ..c13_heat import DecoderProbe, coarse_params, step_classes
 from ..models.beam import reference_beam_search
-from ..models.decode import reference_logprobs
+from ..models.decode import ref_log_softmax, reference_logprobs
 from ..play import judge_row, violated
 from ..policies import (INFO, StartFn, build_policy, expand_starts, has_batchnorm, make_batch, resolve_setup, setup_dims,
                         setup_events, small_cfg)
@@ -76,6 +84,19 @@ RULE = (
     "another size / constructor switches as in C11 (vf.policies.setup_dims; no env=None: the spy env is the observation "
     "channel). Filtered cases count `filter_removed_feasible` (some decoded step of some beam lost a feasible action) and "
     "`instances_tainted_by_ambiguous_filter_cut` (don't-care from that step on). "
+    "Coarse heat-map policies (1/6 of the beam_search cases, zoo key nar_coarse = NonAutoregressivePolicy on "
+    "vf.c13_heat.CoarseHeatmapEncoder, TSP, W 2-4, B 1-3, no env-default width; heat-map = -g*integer level, a deterministic "
+    "per-instance function of the locations): kind two_speed (3/4; (diffuse nodes d, grid step g) from (12,17) (13,19.5) "
+    "(14,22) x4 | (12,20) (13,17) (14,20) (10,17) (15,25); n = 2d+3..6 = 23-36 nodes; level cap 24|64|8; rank increment "
+    "sharpness c 6|12|25; diffuse nodes by index parity x3 | by location) and kind quant (1/4; n 3-9, bilinear heat-map "
+    "quantised row-wise, g 20|17|25|40, 2-4 levels, c 0.5-4); decoding configuration drawn for 1/4 of them (temperature "
+    "1 x2|0.5|2|0.02, tanh clipping default|0 x2|10). Score-geometry classes of every unfiltered case (measured on the decoder "
+    "outputs of the harness' own guided reference run): steps_all_rows_deterministic_with_alternatives (the best move of "
+    "EVERY stacked row has log-prob exactly 0.0 in the working dtype while some row has more than one feasible move), "
+    "steps_kept_score_spread>16.6 (some instance's kept scores lie more than 16.6 nats apart), steps_deterministic_and_"
+    "spread>16.6, steps_deterministic_spread_and_top_w!=argmax_children (both, and the W best expansions are NOT 'every "
+    "beam keeps its best child': what a forced-step shortcut gets wrong), case:* = cases with at least one such step; "
+    "nontrivial_deterministic_step_where_top_w!=argmax_children counts the non-trivial cases of that last class separately. "
     "big_<regime> (one sub-check, one shard per regime; tiny AM policy embed 16 / 1 layer): int16_rows = tsp|mtsp, W 8-12, "
     "n = W..W+2 nodes (mtsp: cities), B = ceil(2^15/(W-1)) + 0..12%; int16_wide = same with W 20-31; uint16_rows = tsp, "
     "W in {8,10,12,16}, B = ceil(2^16/(W-1)) + 0..12%; int8_slots = tsp|mtsp, W 129-136, n = W..W+6, B 1-3; uint8_slots = "
@@ -87,8 +108,8 @@ RULE = (
 )
 ASSUMPTIONS = [
     "AM policy at toy size (embed 32, 2 encoder layers, batch norm, eval mode; big_<regime>: embed 16, 1 layer, 2 heads), "
-    "spread-initialised, dropout 0; tanh clipping / temperature / top-k / top-p as drawn (default 10 / 1 / off); 1/4 of the "
-    "cases another bundled policy (BEAM_ZOO); PolyNet and L2D are not in the domain (PolyNet's strategy vector is tied to "
+    "spread-initialised, dropout 0; tanh clipping / temperature / top-k / top-p as drawn (default 10 / 1 / off); 1/6 of the "
+    "cases the coarse heat-map policy nar_coarse (TSP), 1/4 of the others another bundled policy (BEAM_ZOO); PolyNet and L2D are not in the domain (PolyNet's strategy vector is tied to "
     "the row index, so a beam changing slot changes its distribution: replay differs by O(1), probed; L2D -> C11)",
     "filters: the candidates of a beam are the actions its filtered step distribution keeps (documented process_logits "
     "semantics, vf.models.decode.ref_filter), scored with the renormalised log-probs; every beam keeps its most probable "
@@ -102,6 +123,13 @@ ASSUMPTIONS = [
     "not BeamSearch / process_logits / get_log_likelihood",
     "the compared score is the sum of the step log-probs of ALL steps so far (forced first move 0, post-finish padding "
     "steps included) - what BeamSearch ranks",
+    "nar_coarse: the stub encoder is harness code (trusted); the policy class, its decoder and BeamSearch are rl4co's. A "
+    "softmax step costs a beam's best child at most log(#feasible) nats, so kept scores more than 16.6 nats apart need "
+    "log((n-1)!) > 16.6 on TSP (n >= 12, in practice 23-36 nodes: the leading beam must meanwhile walk through as many "
+    "nodes with numerically deterministic rows as the trailing beam spends on sinking) - the reason for the larger n of the "
+    "two_speed kind. Scores reach magnitude ~25, scaled logits ~1400: the kept-vs-top-W tolerance 1e-5*(1+|s|) stays below "
+    "3e-4 there, the smallest score difference the grid can produce between distinct candidates is log 2 (tie of two) or "
+    "|g - log((d-1)!)| >= 0.49; exact ties of the grid are don't-care as everywhere (score multisets are compared)",
     "float32: per-step log-probs 1e-5*(1+|x|) + 32*eps*max|scaled logit|; accumulated scores 1e-5*(1+|s|); rewards "
     "1e-5*(1+sum|terms|); float64 slice 1e-9",
     "spy env delegates every attribute to the real env; harness keys vf_* ride along in the TensorDict (the decoder and "
@@ -149,14 +177,20 @@ TOP_P = [0.0] * 6 + [0.5, 0.8, 0.95]
 @st.composite
 def cases(draw, tier="quick"):
     zoo = None
-    if draw(st.integers(0, 3)) == 0:
+    coarse = None
+    if draw(st.integers(0, 5)) == 0:
+        # coarse heat-map policy (vf/c13_heat.py): accumulated scores tens of nats apart, numerically deterministic rows
+        coarse = coarse_params(draw, st)
+        zoo = ["nar_coarse", "tsp"]
+        envn = "tsp"
+    elif draw(st.integers(0, 3)) == 0:
         # (entries at the end of a sampled_from list are under-sampled in short per-shard runs: the entry is a hash of an
         #  independently drawn integer, which makes the coverage of the policy list even)
         zoo = list(BEAM_ZOO[h64([draw(st.integers(0, 2 ** 20)), "beam_zoo"]) % len(BEAM_ZOO)])
         envn = zoo[1]
     else:
         envn = draw(st.sampled_from(ENVS))
-    n = draw(st.sampled_from([3, 4, 5, 6, 7, 8]))
+    n = draw(st.sampled_from([3, 4, 5, 6, 7, 8])) if coarse is None else coarse[0]
     if envn == "pdp":
         n = max(2, 2 * (n // 2))
         wmax = max(2, n // 2) if draw(st.sampled_from([True] * 4 + [False])) else n  # beyond the pickups the forced starts repeat
@@ -165,7 +199,7 @@ def cases(draw, tier="quick"):
         wmax = (n - 1) if draw(st.sampled_from([True] * 7 + [False])) else n  # beyond the cities the forced starts repeat
     else:
         wmax = n
-    W = draw(st.sampled_from(list(range(2, wmax + 1))))
+    W = draw(st.sampled_from(list(range(2, wmax + 1)))) if coarse is None else coarse[1]
     extra = {}
     if envn == "mtsp":
         # default objective minmax: the reward lives in the ROLLOUT STATE (td["reward"]), not in the action sequence
@@ -175,17 +209,29 @@ def cases(draw, tier="quick"):
     key = zoo[0] if zoo else "am"
     case = dict(
         **extra,
-        env=envn, n=n, W=W, B=draw(st.integers(1, 4)), iseed=draw(st.integers(0, 2 ** 20)),
+        env=envn, n=n, W=W, B=(draw(st.integers(1, 4)) if coarse is None else coarse[2]), iseed=draw(st.integers(0, 2 ** 20)),
         pseed=draw(st.integers(0, 3)), spread=draw(st.sampled_from([1.25, 1.5, 1.5, 1.6, 2.0])),
         select_best=draw(st.booleans()), variant=draw(st.integers(0, 3)), check=draw(st.booleans()),
         f64=(tier != "quick") and key not in ("mvmoe",) and draw(st.sampled_from([False, False, False, True])),
         wdefault=draw(st.sampled_from([False] * 7 + [True])),  # beam_width=None: the env's own number of starts
     )
+    if coarse is not None:
+        case["opts"] = coarse[3]
+        case["wdefault"] = False  # (the env default would be W = n = 23-36 beams)
     # ---- decoding configuration under beam search (audit items 1, 22): temperature / tanh clipping (policy attribute
     # or decoding kwarg) / top-k / top-p, the return flags, BeamSearch's own select_best default, an injected [B,T]
     # step-relevance mask (fixed-length envs)
-    if draw(st.booleans()):
-        dec = dict(temperature=draw(st.sampled_from([1.0, 0.5, 2.0])), tanh=draw(st.sampled_from([None, 0.0, 5.0, 10.0])),
+    if coarse is not None:
+        # the grid of the heat-map is the point: mostly the policy's own decoding configuration (temperature 1, no tanh
+        # clipping - clipping folds all levels below the best into one); 1/4 of the cases a drawn one
+        if draw(st.integers(0, 3)) == 0:
+            case["dec"] = dict(temperature=draw(st.sampled_from([1.0, 1.0, 0.5, 2.0, 0.02])),
+                               tanh=draw(st.sampled_from([None, 0.0, 0.0, 10.0])), via=draw(st.sampled_from(["attr", "kwargs"])),
+                               top_k=draw(st.sampled_from(TOP_K)), top_p=draw(st.sampled_from(TOP_P)))
+    elif draw(st.booleans()):
+        # (temperature 0.02: a confident policy - whole steps in which the best move of EVERY row has float32
+        #  log-probability exactly 0.0 while feasible alternatives exist)
+        dec = dict(temperature=draw(st.sampled_from([1.0, 0.5, 2.0, 0.02])), tanh=draw(st.sampled_from([None, 0.0, 5.0, 10.0])),
                    via=draw(st.sampled_from(["attr", "kwargs"])), top_k=draw(st.sampled_from(TOP_K)),
                    top_p=draw(st.sampled_from(TOP_P)))
         if dec["tanh"] == 0.0:
@@ -210,7 +256,7 @@ def cases(draw, tier="quick"):
     # ---- env configuration / instance source / env built for another size / constructor switches
     base = env_cfg(envn, n, case["variant"], case.get("ct"))
     if envn != "mtsp":  # (mTSP: the agent ranges / cost types of env_cfg are the wide domain already)
-        case.update(draw(setup_dims(key, envn, n, base, case["B"], tier, by_name=False)))
+        case.update(draw(setup_dims(key, envn, n, base, case["B"], tier, by_name=False, opts=coarse is None)))
     return case
 
 
@@ -255,6 +301,8 @@ def minimize(case):
                 d.pop("src", None)
             if key == "ecfg" and "lat" in c:
                 continue
+            if key == "zoo" and c["zoo"][0] == "nar_coarse":
+                d.pop("opts", None)
             yield d
     for key, val in (("f64", False), ("select_best", False), ("check", True), ("wdefault", False), ("variant", 0),
                      ("spread", 1.5),
@@ -713,7 +761,13 @@ def _run(case, ctx, cfg, env, inst, td0, policy, slice_, W, wdefault):
     ctx.check(torch.equal(h0, starts), f"forced_start_not_executed|{tag}",
               f"first executed moves {h0.tolist()} are not the forced starts {starts.tolist()}"
               + (" handed out by select_start_nodes_fn" if ssn is not None else ""))
-    bref = reference_beam_search(policy, env, td0, W, starts=starts, follow=follow, temperature=Tm, tanh_clipping=C, **fkw)
+    # (decoder outputs of the HARNESS reference run, recorded for the step classes below; unfiltered cases only)
+    probe = None if filtered else DecoderProbe(policy.decoder)
+    try:
+        bref = reference_beam_search(policy, env, td0, W, starts=starts, follow=follow, temperature=Tm, tanh_clipping=C, **fkw)
+    finally:
+        if probe is not None:
+            probe.close()
     if bref.invalid is not None:
         t, b, slot, p_ = bref.invalid
         prev = [bm.prefix for bm in bref.steps[t - 1].kept[b]]
@@ -749,6 +803,25 @@ def _run(case, ctx, cfg, env, inst, td0, policy, slice_, W, wdefault):
                          "top": top})
     ctx.event("steps_with_choice", n_multi)
     ctx.event("steps_decisive(gap>1e-5)", n_dec)
+    # score geometry of the steps (generator measurement): numerically deterministic steps (every stacked row's best move
+    # has log-prob exactly 0.0 in the working dtype while alternatives exist), kept scores more than 16.6 nats apart, and
+    # steps where both hold and the W best expansions are NOT "every beam keeps its best child"
+    cls = None
+    if probe is not None and bref.invalid is None:
+        cls = step_classes(bref, probe.rec, ref_log_softmax, Tm, C, tol, skip_from=taint)
+        ctx.event("steps_all_rows_deterministic_with_alternatives", cls["det"])
+        ctx.event("steps_kept_score_spread>16.6", cls["spread"])
+        ctx.event("steps_deterministic_and_spread>16.6", cls["det_spread"])
+        ctx.event("steps_deterministic_spread_and_top_w!=argmax_children", cls["det_spread_differs"])
+        ctx.event("steps_top_w!=argmax_children", cls["differs"])
+        for lab, cnt in (("all_rows_deterministic_with_alternatives", cls["det"]), ("kept_score_spread>16.6", cls["spread"]),
+                         ("deterministic_step_where_top_w!=argmax_children", cls["det_spread_differs"])):
+            if cnt:
+                ctx.event(f"case:{lab}")
+                if key == "nar_coarse":
+                    ctx.event(f"case:{lab}|nar_coarse/{(case.get('opts') or {}).get('kind', 'two_speed')}")
+        ctx.event("max_kept_score_spread:" + ("<1" if cls["max_spread"] < 1 else "1-16.6" if cls["max_spread"] <= 16.6
+                                              else "16.6-40" if cls["max_spread"] <= 40 else ">40"))
     # the reference's per-step log-probs along the final beams' ancestry == returned per-step log-probs (same layout)
     lp_anc = torch.zeros(R, T, dtype=torch.float64)
     last = bref.steps[-1]
@@ -832,6 +905,8 @@ def _run(case, ctx, cfg, env, inst, td0, policy, slice_, W, wdefault):
             ctx.event("nontrivial_filter_removed_feasible")
         if key != "am":
             ctx.event(f"nontrivial_policy:{key}")
+        if cls is not None and cls["det_spread_differs"]:
+            ctx.event("nontrivial_deterministic_step_where_top_w!=argmax_children")
     frac = "all" if n_dec == n_multi else ("most" if n_dec >= 0.8 * max(1, n_multi) else "some")
     ctx.event(f"decisive:{frac}")
     ctx.sample({"env": envn, "policy": key, "n": n, "W": W, "B": B, "select_best": sb, "T": T, "dec": case.get("dec"),
@@ -1243,7 +1318,7 @@ def _run_big(case, ctx, cfg, env, inst, td0, policy, tag, slice_):
 
 
 SUBS = [
-    Sub("beam_search", execute, strategy=lambda tier: cases(tier), budget={"quick": 1440, "thorough": 6000}, shards=16,
+    Sub("beam_search", execute, strategy=lambda tier: cases(tier), budget={"quick": 1728, "thorough": 7200}, shards=16,
         shrink=False, minimize=minimize),
 ] + [
     # one sub-check per index-range regime, one shard each: Hypothesis' first example of a run is always the strategy's
